@@ -19,6 +19,20 @@ def build_objects(init):
     o.mem.diffusion_curve_sets = [o.curves]
     o.pv = build.Pervaporation(membrane=o.mem, mixture=o.mix)
     o.cond = build.conditions(init["cond"])
+    prog = init.get("program")
+    if prog:
+        import math
+        import numpy
+
+        t0 = init["cond"]["T"]
+        r = prog["rate"]  # K per hour, small: the programme stays near the initial temperature over the few hours modelled
+        if prog["type"] == "polynomial":
+            co = [t0, r, -0.05 * r]
+        elif prog["type"] == "exponential":
+            co = [t0 / math.e, 1.0, r / t0]
+        else:
+            co = [80.0, math.exp(t0 / 80.0), r / 80.0 * math.exp(t0 / 80.0)]
+        o.cond.temperature_program = build.TemperatureProgram(coefficients=numpy.array(co) if prog["as_array"] else co, type=prog["type"])
     o.comps = [build.composition(c["p"], c["basis"]) for c in init["comps"]]
     o.meas = Measurements(data=[Measurement(x=p[0], t=p[1], p=p[2]) for p in init["points"]])
     o.perms = (build.permeance(init["perms"][0]), build.permeance(init["perms"][1]))
